@@ -144,7 +144,22 @@ def run(repo, rep):
     rep.check(len(dl) == 1 and linear(dl[0].value) == {"depth_offsets[idx + 1]": 1, "depth_offset": -1}, "C08-c", site, "slice length = next offset - this offset", "")
     ol = [l for l in ast.walk(f) if isinstance(l, ast.For) and norm(l.iter) == "enumerate(depth_offsets[:-1])"]
     rep.check(len(ol) == 1 and norm(ol[0].target) == "(idx, depth_offset)", "C08-c", site, "slices are consecutive entries of depth_offsets", "")
-    rep.floor("C08-c", 7)
+    # inside the per-core loop the encoder is fed the per-core quantities: wherever the loop defines `core_<x>`, a call in the
+    # loop that passes plain `<x>` for a parameter uses the whole-block value for one core
+    if lp:
+        core_vars = {norm(s_.targets[0])[5:] for s_ in ast.walk(lp[0]) if isinstance(s_, ast.Assign) and len(s_.targets) == 1 and isinstance(s_.targets[0], ast.Name) and s_.targets[0].id.startswith("core_")}
+        for call in calls_in(lp[0], "encode_weights"):
+            for k_ in call.keywords:
+                used = {x.id for x in ast.walk(k_.value) if isinstance(x, ast.Name)}
+                stale = sorted(v for v in used if v in core_vars)
+                rep.check(not stale, "C08-c", site, f"encode_weights({k_.arg}=...) inside the per-core loop uses the per-core value",
+                          f"{k_.arg}={norm(k_.value)} although the loop computes core_{stale[0] if stale else ''}: core {'{core}'} is encoded in the traversal order of the whole block, not of its own share")
+        want_kw = {"weights_volume": "core_weights", "ofm_block_depth": "core_block_depth"}
+        for call in calls_in(lp[0], "encode_weights"):
+            kw = {k_.arg: norm(k_.value) for k_ in call.keywords}
+            for a_, v_ in want_kw.items():
+                rep.check(kw.get(a_) == v_, "C08-c", site, f"encode_weights gets {a_}={v_}", f"{a_}={kw.get(a_)}")
+    rep.floor("C08-c", 9)
 
     # ---------------------------------------------------------------- d
     rec = [s for s in ast.walk(f) if isinstance(s, ast.Assign) and norm(s.targets[0]) == "npu_tensor.encoded_ranges[key]"]
@@ -248,7 +263,31 @@ def run(repo, rep):
                     if isinstance(t, ast.Attribute) and t.attr == "value_id":
                         vid.append((m.name, norm(node)))
     rep.check(all("uuid" in v or ".value_id" in v for _, v in vid) and vid, "C08-g", "ethosu/vela/tensor.py", "value_id is a fresh uuid or copied from another tensor with the same values", str(vid))
-    rep.floor("C08-g", 12)
+    # a rewrite that changes a weight tensor's values in place must give it a new value_id unconditionally (reader clones of one
+    # constant share the id, and the id is the cache key): the refresh sits in the same block as the mutation
+    gopt = repo.mod("tflite_graph_optimiser")
+    fs = gopt.func("fixup_strided_conv")
+    n_ref = 0
+    for blk_owner in ast.walk(fs):
+        for fld in ("body", "orelse"):
+            blk = getattr(blk_owner, fld, None)
+            if not (isinstance(blk, list) and blk and isinstance(blk[0], ast.stmt)):
+                continue
+            muts = [s_ for s_ in blk if isinstance(s_, ast.Assign) and norm(s_.targets[0]).endswith("weight_tensor.values")]
+            if not muts:
+                continue
+            refresh = [s_ for s_ in blk if isinstance(s_, ast.Assign) and norm(s_.targets[0]) == "weight_tensor.value_id" and "uuid" in norm(s_.value)]
+            n_ref += 1
+            rep.check(bool(refresh), "C08-g", "ethosu/vela/tflite_graph_optimiser.py:fixup_strided_conv", "the in-place reshape / padding of the filter is followed, in the same block, by a fresh value_id",
+                      "the refresh is missing or conditional: the rewritten filter keeps the id of the untouched clones of the same constant, and another convolution gets its cached stream")
+    rep.check(n_ref >= 1, "C08-g", "ethosu/vela/tflite_graph_optimiser.py:fixup_strided_conv", "in-place filter rewrite found", str(n_ref))
+    rep.floor("C08-g", 14)
+
+    rep.clause("C08-k", "the weight stream is produced in hardware order and the scale records with the reference's casting rule: sub-kernel decomposition uses the dilation of its own axis [rule shared with C07-f]; the float32 / double product rule is selected on the operator's original type [rule shared with C09-b]")
+    from . import c07, c09
+
+    rep.run_borrowed(c07, {"C07-f": "C08-k"}, repo)
+    rep.run_borrowed(c09, {"C09-b": "C08-k"}, repo)
 
     # ---------------------------------------------------------------- h: key components are computed from the quantities they name
     rep.clause("C08-h", "the block-depth component of the cache key is min(requested OFM block depth, OFM depth of the weights), with the OFM depth read from the same axis as the encoder's full_ofm_depth")
